@@ -328,11 +328,17 @@ func TestCheck(t *testing.T) {
 	}
 	if r.ReplayPath() != "" {
 		var h struct {
-			Choices []explore.Point
-			Junk    [][]byte
+			Choices      []explore.Point
+			Junk         [][]byte
+			Backpressure bool
+			Data         bool
 		}
 		if _, err := r.LoadReplay(&h); err != nil {
 			r.EngineError(err.Error())
+		} else if h.Backpressure {
+			if o := backpressure(t, pc, h.Data); o.fail != nil {
+				r.Report(vf.Violation{Clause: o.fail.Clause, Tags: o.tags, Msg: o.fail.Msg, History: h})
+			}
 		} else if h.Junk != nil {
 			if o := part2(t, pc, h.Junk); o.fail != nil {
 				r.Report(vf.Violation{Clause: o.fail.Clause, Msg: o.fail.Msg, History: h})
@@ -418,10 +424,18 @@ func TestCheck(t *testing.T) {
 			r.Report(vf.Violation{Clause: o.fail.Clause, Tags: []string{"arbitrary-bytes"}, Msg: fmt.Sprintf("%s (blob %x)", o.fail.Msg, lo[0]), Cost: 1, History: map[string]any{"Junk": lo}})
 		}
 	}
+	for _, data := range []bool{false, true} {
+		p2runs++
+		if o := backpressure(t, pc, data); o.fail != nil {
+			r.Report(vf.Violation{Clause: o.fail.Clause, Tags: o.tags, Msg: o.fail.Msg, Cost: 1, History: map[string]any{"Backpressure": true, "Data": data}})
+		} else {
+			r.Outcome(fmt.Sprintf("back-pressure data=%v: delivered after drain", data))
+		}
+	}
 	r.Sample(map[string]any{"part2": fmt.Sprintf("%d mutated/truncated blobs in %d scans of %d blobs next to a genuine header+data", len(junk), p2runs, batch)})
 	r.Finish(vf.Coverage{
 		Evaluations: st.Executions + p2runs, DistinctNontrivial: int64(r.DistinctOutcomes()), States: st.Executions, Transitions: st.Points,
-		Rule:       "part 1: every DA layout (5 content kinds per height) × start height {0,1,3} × every sequence of fetch outcomes (6 per listing call) within the budget, real RetrieveLoop under virtual time; part 2: every prefix and single-byte substitution of a genuine header blob and a genuine data blob plus malformed shapes, scanned in batches of 250 next to genuine blobs; distinct = distinct (layout, faults, calls, events) signatures",
+		Rule:       "part 1: every DA layout (5 content kinds per height) × start height {0,1,3} × every sequence of fetch outcomes (6 per listing call) within the budget, real RetrieveLoop under virtual time; part 3: a genuine blob scanned while the sync loop's input channel is full (back-pressure) must arrive once the channel is drained; part 2: every prefix and single-byte substitution of a genuine header blob and a genuine data blob plus malformed shapes, scanned in batches of 250 next to genuine blobs; distinct = distinct (layout, faults, calls, events) signatures",
 		Exhaustive: true, Caps: caps,
 		Bounds:     map[string]any{"da_heights": nHeights, "budgets": budgets, "junk_blobs": len(junk), "substitution_values_per_position": map[bool]any{true: 255, false: len(subs) + 1}[subs == nil]},
 	})
@@ -434,5 +448,61 @@ func part2(t *testing.T, pc *world.ProducerChain, junk [][]byte) (out outcome) {
 		}
 	}()
 	synctest.Test(t, func(t *testing.T) { out = bubble(nil, pc, 1, junk) })
+	return
+}
+
+// part 3: back-pressure. The sync loop's input channel is full (the sync loop lags behind the scan); a genuine blob at the
+// examined height must still reach sync once there is room — the scan has to wait, it must not drop the blob and move on.
+func backpressure(t *testing.T, pc *world.ProducerChain, data bool) (out outcome) {
+	defer func() {
+		if e := recover(); e != nil {
+			out.fail = &world.Fail{Clause: "no-panic", Msg: fmt.Sprint("the scan panicked under back-pressure: ", e)}
+		}
+	}()
+	synctest.Test(t, func(t *testing.T) {
+		env := world.NewEnv()
+		p := world.Params{InitialHeight: pc.Initial, DAStartHeight: 1, BlockTime: 1000 * time.Hour, DABlockTime: 1000 * time.Hour}
+		n, err := world.StartNode(p, env, nil, world.NodeOpts{})
+		if err != nil {
+			out.fail = &world.Fail{Clause: "startup", Msg: err.Error()}
+			return
+		}
+		m := n.M
+		want := string(pc.Hashes[1])
+		if data {
+			env.DA.Place(1, pc.DatBlobs[1])
+			want = string(pc.DataAt(1).DACommitment())
+			for i := 0; i < cap(m.VerifDataInCh()); i++ {
+				m.VerifDataInCh() <- block.NewDataEvent{Data: pc.DataAt(2), DAHeight: 0}
+			}
+		} else {
+			env.DA.Place(1, pc.HdrBlobs[1])
+			for i := 0; i < cap(m.VerifHeaderInCh()); i++ {
+				m.VerifHeaderInCh() <- block.NewHeaderEvent{Header: pc.Header(0), DAHeight: 0}
+			}
+		}
+		env.DA.SetTip(1)
+		ctx, cancel := context.WithCancel(context.Background())
+		defer func() { cancel(); drain(m); synctest.Wait() }()
+		go m.RetrieveLoop(ctx)
+		m.VerifRetrieveCh() <- struct{}{}
+		time.Sleep(3 * time.Second)
+		synctest.Wait()
+		got := false
+		for round := 0; round < 3 && !got; round++ {
+			for _, e := range drain(m) {
+				if e.hash == want && e.daH == 1 {
+					got = true
+				}
+			}
+			time.Sleep(3 * time.Second)
+			synctest.Wait()
+		}
+		if !got {
+			kind := map[bool]string{true: "data", false: "header"}[data]
+			out.fail = &world.Fail{Clause: "genuine-blob-handed-to-sync", Msg: fmt.Sprintf("with the sync loop's %s channel full (%d events waiting) the genuine %s blob at DA height 1 never reached sync although the channel was drained afterwards; the DA cursor is at %d", kind, cap(m.VerifHeaderInCh()), kind, m.VerifDAHeight())}
+			out.tags = []string{"back-pressure"}
+		}
+	})
 	return
 }
